@@ -603,6 +603,7 @@ def run(tier, seed):
 
         # callees before callers (index order is dependency order), small inputs first
         closure = {}
+        direct_bad = {x[0]['py']['call'] for x in problems if not any(True for _ in subcalls(x[0]['py']))}
 
         def callees(n):
             if n not in closure:
@@ -617,6 +618,8 @@ def run(tier, seed):
             if (inner_names(c['py']) | callees(c['py']['call'])) & blamed_methods:
                 continue        # explained by an inner call / a called library rule that is already reported
             c2, i2, mo2, (sig, desc) = innermost(c, i, mo, prob)
+            if callees(c2['py']['call']) & (direct_bad | blamed_methods):
+                continue        # a library rule it calls fails on its own: reported there
             blamed_methods.add(c2['py']['call'])
             if mo2 is None and ok and c2.get('ml'):
                 mo2 = C.run_lines(mlref, [c2['ml']])[0]
@@ -626,6 +629,11 @@ def run(tier, seed):
                                         proof_stage_ok=not proof_broken,
                                         proof_log_tail=None if P['ok'] else P['log'][-1200:],
                                         translation_abort=abort))
+    if problems and not R.violations and not R.known_hit:
+        c, i, mo, (sig, desc) = problems[0]
+        R.violation(sig, desc, dict(method=c['py']['call'], python_call=c['py'], model_request=c.get('ml'),
+                                    expected_conclusion_hex=hexp(c['expect']) if c.get('expect') else None,
+                                    implementation=i, model=mo, found_in=c['origin'], attribution='none'))
     if proof_broken and not R.violations and not R.known_hit:
         R.violation('proof-broken', 'translation or Coq proof stage failed and no failing input was found',
                     {'no_failing_input_found': True, 'theorem_or_correspondence': 'Gen/PropLibSpec.v / Props/C10.v',
@@ -679,6 +687,7 @@ def run(tier, seed):
 
 
 def replay(path):
+    regenerate()
     d = json.load(open(path))
     r = d.get('replay', d)
     print(json.dumps({k: r.get(k) for k in ('method', 'python_call', 'model_request', 'expected_conclusion_hex')}, indent=1)[:3000])
